@@ -247,6 +247,30 @@ class Fn:
         self._reach[key] = seen
         return seen
 
+    def reachable_avoiding_edges(self, src, removed):
+        """blocks reachable from src when the CFG edges in `removed` (set of (from, to)) are deleted"""
+        seen = set()
+        st = [src]
+        while st:
+            x = st.pop()
+            if x in seen:
+                continue
+            seen.add(x)
+            for y in self.succ.get(x, []):
+                if (x, y) not in removed:
+                    st.append(y)
+        return seen
+
+    def bool_switch_edges(self, bb):
+        """(true_target, false_target) of a switch on a bool in block bb, or None"""
+        t = self.blocks[bb]['term']
+        if not t or t['t'] != 'switch':
+            return None
+        f = [tg for v, tg in t['targets'] if v == 0]
+        if not f:
+            return None
+        return (t['otherwise'], f[0])
+
     def reaches(self, a, b, avoid=()):
         """is there a CFG path a -> ... -> b (length >= 1) not passing through `avoid`"""
         return b in self.reachable_from(a, avoid)
